@@ -1,6 +1,7 @@
 #!/bin/sh
-# offline setup: build the Lean models, proofs and drivers; pre-build the /repo snapshot
+# offline setup: build the Lean models, proofs, properties and every model driver; pre-build the /repo snapshot
 set -e
 cd "$(dirname "$0")"
-(cd lean && lake build DimodModel DimodProofs Properties varsdriver bqmdriver cqmdriver filedriver)
+DRIVERS=$(grep -A1 '^\[\[lean_exe\]\]' lean/lakefile.toml | sed -n 's/^name = "\(.*\)"/\1/p' | tr '\n' ' ')
+(cd lean && lake build DimodModel DimodProofs Generated Properties $DRIVERS)
 /venv/bin/python harness/build.py
